@@ -6,6 +6,7 @@ Text is `List Char`; every statement holds for files, lines, code lists and diag
 import RefurbVerif.Model.Noqa
 import RefurbVerif.Generated.NoqaLines
 import RefurbVerif.Lemmas.Sort
+import RefurbVerif.Lemmas.Order
 
 namespace RefurbVerif.C08
 open RefurbVerif
@@ -597,158 +598,6 @@ theorem noqa_codes (l g sep w code : Str) (cs : List Str) (hl : ¬ HasTag l) (hg
     exact hkc ▸ hk
   · intro h; exact ⟨code, h, by simp⟩
 
-/-! ### The order `sort_errors` induces is total and transitive (needed to commute filter and sort) -/
-
-structure GoodLe {κ : Type} (le : κ → κ → Bool) : Prop where
-  total : ∀ a b, le a b = true ∨ le b a = true
-  trans : ∀ a b c, le a b = true → le b c = true → le a c = true
-
-structure GoodKeyLe {κ : Type} (le : κ → κ → Bool) : Prop extends GoodLe le where
-  antisymm : ∀ a b, le a b = true → le b a = true → a = b
-
-/-- compare by a key first, by `rest` among equal keys -/
-def lex {α κ : Type} [DecidableEq κ] (k : α → κ) (leK : κ → κ → Bool) (rest : α → α → Bool) : α → α → Bool :=
-  fun a b => if k a ≠ k b then leK (k a) (k b) else rest a b
-
-theorem lex_good {α κ : Type} [DecidableEq κ] (k : α → κ) (leK : κ → κ → Bool) (rest : α → α → Bool)
-    (hk : GoodKeyLe leK) (hr : GoodLe rest) : GoodLe (lex k leK rest) := by
-  constructor
-  · intro a b
-    unfold lex
-    by_cases h : k a = k b
-    · simp only [h, ne_eq, not_true_eq_false, ↓reduceIte]; exact hr.total a b
-    · have h' : k b ≠ k a := fun e => h e.symm
-      simp only [ne_eq, h, h', not_false_eq_true, ↓reduceIte]; exact hk.total _ _
-  · intro a b c
-    unfold lex
-    by_cases h1 : k a = k b <;> by_cases h2 : k b = k c
-    · simp only [h1, h2, ne_eq, not_true_eq_false, ↓reduceIte]; exact hr.trans a b c
-    · simp only [ne_eq, h1, h2, not_true_eq_false, not_false_eq_true, ↓reduceIte]
-      intro _ h; exact h
-    · have h3 : k a ≠ k c := fun e => h1 (e.trans h2.symm)
-      simp only [ne_eq, h2, h3, not_true_eq_false, not_false_eq_true, ↓reduceIte]
-      intro h _; exact h
-    · simp only [ne_eq, h1, h2, not_false_eq_true, ↓reduceIte]
-      intro hab hbc
-      have h3 : k a ≠ k c := by
-        intro e
-        rw [← e] at hbc
-        exact h1 (hk.antisymm _ _ hab hbc)
-      simp only [h3, not_false_eq_true, ↓reduceIte]
-      exact hk.trans _ _ _ hab hbc
-
-theorem leChars_good : GoodKeyLe leChars := by
-  refine ⟨⟨?_, ?_⟩, ?_⟩
-  · intro a
-    induction a with
-    | nil => intro b; left; rfl
-    | cons x a ih =>
-      intro b
-      cases b with
-      | nil => right; rfl
-      | cons y b =>
-        unfold leChars
-        by_cases h1 : x < y
-        · simp [h1]
-        · by_cases h2 : y < x
-          · simp [h2]
-          · simp only [h1, h2, ↓reduceIte]; exact ih b
-  · intro a
-    induction a with
-    | nil => intro b c _ _; rfl
-    | cons x a ih =>
-      intro b c
-      cases b with
-      | nil => intro h; simp [leChars] at h
-      | cons y b =>
-        cases c with
-        | nil => intro _ h; simp [leChars] at h
-        | cons z c =>
-          unfold leChars
-          by_cases hxy : x < y
-          · by_cases hyz : y < z
-            · simp [hxy, hyz, Char.lt_trans hxy hyz]
-            · by_cases hzy : z < y
-              · simp [hyz, hzy]
-              · have : y = z := Char.le_antisymm (Char.not_lt.mp hzy) (Char.not_lt.mp hyz)
-                subst this; simp [hxy]
-          · by_cases hyx : y < x
-            · simp [hxy, hyx]
-            · have : x = y := Char.le_antisymm (Char.not_lt.mp hyx) (Char.not_lt.mp hxy)
-              subst this
-              by_cases hyz : x < z
-              · simp [hyz]
-              · by_cases hzy : z < x
-                · simp [hyz, hzy]
-                · simp only [hxy, hyz, hzy, ↓reduceIte]; exact ih b c
-  · intro a
-    induction a with
-    | nil => intro b _ h; cases b with | nil => rfl | cons y b => simp [leChars] at h
-    | cons x a ih =>
-      intro b
-      cases b with
-      | nil => intro h; simp [leChars] at h
-      | cons y b =>
-        unfold leChars
-        by_cases hxy : x < y
-        · have : ¬ y < x := Char.lt_asymm hxy
-          simp [hxy, this]
-        · by_cases hyx : y < x
-          · simp [hxy, hyx]
-          · have : x = y := Char.le_antisymm (Char.not_lt.mp hyx) (Char.not_lt.mp hxy)
-            subst this
-            simp only [hxy, ↓reduceIte]
-            intro h1 h2; rw [ih b h1 h2]
-
-theorem leInt_good : GoodKeyLe (fun a b : Int => decide (a ≤ b)) := by
-  refine ⟨⟨?_, ?_⟩, ?_⟩
-  · intro a b; simp only [decide_eq_true_eq]; omega
-  · intro a b c; simp only [decide_eq_true_eq]; omega
-  · intro a b; simp only [decide_eq_true_eq]; omega
-
-theorem leNat_good : GoodKeyLe (fun a b : Nat => decide (a ≤ b)) := by
-  refine ⟨⟨?_, ?_⟩, ?_⟩
-  · intro a b; simp only [decide_eq_true_eq]; omega
-  · intro a b c; simp only [decide_eq_true_eq]; omega
-  · intro a b; simp only [decide_eq_true_eq]; omega
-
-def leDiag : SortBy → Diag → Diag → Bool
-  | .filename => lex Diag.file leChars (lex Diag.line (fun a b => decide (a ≤ b)) (lex Diag.col (fun a b => decide (a ≤ b))
-      (lex Diag.pfx leChars (fun a b => decide (a.code ≤ b.code)))))
-  | .error => lex Diag.pfx leChars (lex Diag.code (fun a b => decide (a ≤ b)) (lex Diag.file leChars
-      (lex Diag.line (fun a b => decide (a ≤ b)) (fun a b => decide (a.col ≤ b.col)))))
-
-theorem leItem_diag (by_ : SortBy) (a b : Diag) : leItem by_ (.diag a) (.diag b) = leDiag by_ a b := by
-  cases by_ <;> rfl
-
-theorem leDiag_good (by_ : SortBy) : GoodLe (leDiag by_) := by
-  have hcode : GoodLe (fun a b : Diag => decide (a.code ≤ b.code)) :=
-    ⟨fun a b => by simp only [decide_eq_true_eq]; omega, fun a b c => by simp only [decide_eq_true_eq]; omega⟩
-  have hcol : GoodLe (fun a b : Diag => decide (a.col ≤ b.col)) :=
-    ⟨fun a b => by simp only [decide_eq_true_eq]; omega, fun a b c => by simp only [decide_eq_true_eq]; omega⟩
-  cases by_
-  · exact lex_good _ _ _ leChars_good (lex_good _ _ _ leInt_good (lex_good _ _ _ leInt_good (lex_good _ _ _ leChars_good hcode)))
-  · exact lex_good _ _ _ leChars_good (lex_good _ _ _ leNat_good (lex_good _ _ _ leChars_good (lex_good _ _ _ leInt_good hcol)))
-
-/-- `sort_errors` compares any two report items, consistently -/
-theorem leItem_good (by_ : SortBy) : GoodLe (leItem by_) := by
-  constructor
-  · intro a b
-    cases a <;> cases b
-    · rw [leItem_diag, leItem_diag]; exact (leDiag_good by_).total _ _
-    · right; rfl
-    · left; rfl
-    · exact leChars_good.total _ _
-  · intro a b c
-    match a, b, c with
-    | .diag a, .diag b, .diag c => rw [leItem_diag, leItem_diag, leItem_diag]; exact (leDiag_good by_).trans _ _ _
-    | .diag _, .diag _, .text _ => intro _ h; exact absurd h (by simp [leItem])
-    | .diag _, .text _, _ => intro h; exact absurd h (by simp [leItem])
-    | .text _, .diag _, .diag _ => intro _ _; rfl
-    | .text _, .diag _, .text _ => intro _ h; exact absurd h (by simp [leItem])
-    | .text _, .text _, .diag _ => intro _ _; rfl
-    | .text _, .text _, .text _ => exact leChars_good.trans _ _ _
-
 /-! ### Appending comments to a file, and what the report does -/
 
 /-- what is appended to one physical line: nothing, `<blanks># noqa<white space>`, or
@@ -910,7 +759,7 @@ theorem filter_exact (cfg : LineCfg) (hs : Sane cfg) (by_ : SortBy) (src src' : 
   unfold runReport
   rw [hk, hk']
   simp only [Option.map_some]
-  rw [filter_ssort (leItem by_) (leItem_good by_).total (leItem_good by_).trans]
+  rw [filter_ssort (leItem by_) (leItem_total by_) (leItem_trans by_)]
 
 /-- the full statement: the metamorphic law for all file contents -/
 def FilterExactAlways (cfg : LineCfg) : Prop :=
